@@ -242,6 +242,36 @@ def search_C05_C06(pid, budget):
                     if got != exp:
                         fail(pid, "split-reader", "with %s=%r next to a reader input: regions %r, expected %r (w = reader block duration %r)" % (
                             key, bd / 2.5, got, exp, w), pattern=pat, sr=sr, block_dur=bd, min_dur=mn, max_dur=mx)
+    for key in ("analysis_window", "aw"):
+        for bad in (0, 0.0, -0.05):
+            n += 1
+            try:
+                list(split(bytes(400), sr=100, sw=2, ch=1, min_dur=0.1, max_dur=1, max_silence=0, **{key: bad}))
+                fail(pid, "split-args", "no ValueError for %s=%r (at a rate where the default window would be acceptable)" % (key, bad),
+                     args=[key, bad])
+            except ValueError:
+                pass
+    # multi-channel wav read lazily: regions carry the input bytes of their sample range
+    import wave as _wave
+    tmpd = tempfile.mkdtemp(prefix="c05w-")
+    try:
+        for chn in (2, 3):
+            n += 1
+            dw = synth("aAAAAaaAAAaaaAAAAA", 10, 2, chn)
+            wp = os.path.join(tmpd, "m%d.wav" % chn)
+            with _wave.open(wp, "wb") as f:
+                f.setframerate(1000); f.setsampwidth(2); f.setnchannels(chn); f.writeframes(dw)
+            kwf = dict(min_dur=0.02, max_dur=0.1, max_silence=0.01, analysis_window=0.01)
+            exp = [(round(r.start * 1e6), bytes(r)) for r in split(dw, sr=1000, sw=2, ch=chn, **kwf)]
+            for lf in (False, True):
+                got = [(round(r.start * 1e6), bytes(r)) for r in split(wp, large_file=lf, **kwf)]
+                if got != exp:
+                    fail(pid, "split", "%d-channel wav, large_file=%r: regions start at %r (%r bytes), the same audio as bytes gives %r (%r bytes)" % (
+                        chn, lf, [g[0] for g in got], [len(g[1]) for g in got], [e[0] for e in exp], [len(e[1]) for e in exp]))
+    finally:
+        for f in os.listdir(tmpd):
+            os.remove(os.path.join(tmpd, f))
+        os.rmdir(tmpd)
     for (sr, aw) in ((10, 0.1), (1000, 0.01), (100, 0.05), (10, 0.25), (22050, 0.05), (50, 0.02), (1, 1),
                      (48000, 1024 / 48000), (48000, 256 / 48000), (3, 1 / 3)):
         wdurs = [(10 * aw, 10 * aw, 0.0), (4 * aw, 9 * aw, 2 * aw), (3 * aw, 3 * aw, aw)] if aw not in (0.1, 0.01, 0.05, 0.25, 0.02, 1) else []
@@ -377,6 +407,22 @@ def search_C09(pid, budget):
                                                     channels=ch, ch=ch + 1, analysis_window=aw, aw=aw * 3,
                                                     **{k: v for k, v in kw.items() if k != "analysis_window"}),
                 }
+                variants["AudioRegion next to contradicting long-name parameters"] = lambda: regions_of(
+                    AudioRegion(data, sr, sw, ch), sampling_rate=sr * 2 + 1, sample_width=(2 if sw != 2 else 1), channels=ch + 1, **kw)
+
+                def resplit(mk, **extra):
+                    # split, close the source, split the same object again: every container restarts from the beginning
+                    src = mk()
+                    first = regions_of(src, **extra)
+                    src.close()
+                    return regions_of(src, **extra)
+                kwr = {k: v for k, v in kw.items() if k != "analysis_window"}
+                variants["AudioSource split again after close()"] = lambda: resplit(lambda: BufferAudioSource(data, sr, sw, ch), **kw)
+                variants["AudioReader over bytes split again after close()"] = lambda: resplit(
+                    lambda: AudioReader(data, block_dur=aw, sr=sr, sw=sw, ch=ch), **kwr)
+                variants["AudioReader over a lazily read wav split again after close()"] = lambda: resplit(
+                    lambda: AudioReader(wavp, block_dur=aw, large_file=True), **kwr)
+
                 def stdin_variant():
                     old = sys.stdin
                     sys.stdin = type("S", (), {"buffer": io.BytesIO(data)})()
@@ -487,7 +533,7 @@ def search_C10_C19(pid, budget):
                 h = B if hd in (None, bd) else int(hd * sr)
                 if B == 0 or h == 0:
                     continue
-                for mr in (None, 0.5, 0.25, 0.0625, 0.3, 1.05, 100):
+                for mr in (None, 0.5, 0.25, 0.0625, 0.3, 1.05, 100, 0, 0.0):
                     vis = data if mr is None else data[:round(mr * sr) * bps]
                     exp = expected_blocks(vis, bps, B, h)
                     for rec in (False, True):
@@ -627,6 +673,21 @@ def search_C11(pid, budget):
                             if kind == "buffer" and src.position != pos:
                                 fail(pid, "source", "position %r after consuming %d samples" % (src.position, pos),
                                      fmt=[sr, sw, ch], nsamples=ns, reads=list(seq))
+                        src.close()
+                # close() returns to the start whatever happened to the position while the source was closed
+                if ns >= 3:
+                    for first_open in (False, True):
+                        n += 1
+                        src = BufferAudioSource(data, sr, sw, ch)
+                        if first_open:
+                            src.open(); src.read(1); src.close()
+                        src.position = 2
+                        src.close()
+                        src.open()
+                        got = src.read(1)
+                        if got != data[:bps]:
+                            fail(pid, "position", "position = 2 on a closed source, close(), open(): the next read starts at sample %r, expected 0" % (
+                                data.index(got) // bps if got else None), fmt=[sr, sw, ch], nsamples=ns)
                         src.close()
                 # buffer positions
                 for p in range(-ns - 2, ns + 3):
